@@ -368,7 +368,10 @@ func (lxr *Lexer) quotedString(start int, quote byte) Item {
 	}
 	// have escapes so need to build new string
 	var sb strings.Builder
-	for c := lxr.read(); c != eof && c != quote; c = lxr.read() {
+	for c := lxr.read(); c != quote; c = lxr.read() {
+		if c == eof {
+			return it(tok.Error, start, "missing closing quote")
+		}
 		c = lxr.doesc(c)
 		sb.WriteByte(byte(c))
 	}
